@@ -33,7 +33,7 @@ Vocabulary (Lemmas/Crash.lean, Lemmas/CrashReorg.lean):
 
 What is *not* carried by a theorem is listed at the end of this file.
 -/
-import Aergo.Lemmas.CrashGather
+import Aergo.Lemmas.CrashBad
 
 namespace Aergo.Props.C06
 open Aergo.Crash
@@ -559,19 +559,175 @@ example :
 
 end Ex
 
+/-! ## Histories: any sequence of arrivals, crashes at any write prefix, interrupted restarts
+
+Everything above is "one operation from a coherent store" (`Inv`, `Fork`). The theorems of this section make the
+coherence of the whole node an invariant of arbitrary histories (vocabulary in Lemmas/CrashHist.lean):
+
+* `Tree U g` — the universe of valid blocks: unique ids, parents in the universe one height below, a transaction
+  hash occurs once on any parent-linked path (C04; the only assumption, made once for the universe).
+* `Coh U g N chain` — node coherence: `Inv` for the main chain `chain`, every stored block record is a universe block
+  whose parent is stored (side branches included), the best block has no stored child off the chain, the state DB
+  is at the best block's root, every parked orphan is a universe block whose parent is not stored.
+* `RecState U g P E` — `E` is a store a crash can leave: coherent, or inside the swap window of a reorganisation.
+* `Legit c0 c1 c` — `c` is the chain before an arrival, the chain after it, or (a run of parked orphans) between.
+-/
+
+/-- **`Fork` is established, not assumed.** In a coherent store, every stored block above the best block that is not
+on the main chain is the top of a `Fork` which splits the chain at the branch root — the hypothesis of
+`reorg_crash_recover` / `arrival_crash_recover` holds whenever `feed` starts a reorganisation. -/
+theorem fork_established {U : Block → Prop} {g : Block} {D : Store} {chain : List Block} {best top : Block}
+    (T : Tree U g) (C : CohD U g D chain best) (hs : getBlock D top.id = some top) (hn : top ∉ chain)
+    (hlt : best.no < top.no) :
+    ∃ pre old new start, chain = pre ++ old.reverse ∧ Fork D pre old new start best top :=
+  C.fork T hs hn hlt
+
+/-- **Any arrival from any coherent node** — stored block, orphan, a chain of parked orphans connected behind the
+block or stored as side blocks, a reorganisation of any depth: `feed` succeeds, the node stays coherent, its
+store is the old store plus the units reported, and the store left by *every* prefix of those units is one from
+which the restart recovers (`restart_any_depth`) to the chain before the arrival, after it, or in between. -/
+theorem feed_any_coherent {U : Block → Prop} {g : Block} (T : Tree U g) {N : Node} {chain : List Block}
+    (C : Coh U g N chain) {b : Block} (hU : U b) :
+    ∃ chain', (feed N b).2.1 = .ok ∧ Coh U g (feed N b).1 chain' ∧
+      (feed N b).1.D = applyUnits (feed N b).2.2 N.D ∧
+      ∀ k, RecState U g (Legit chain chain') (crash (feed N b).2.2 k N.D) :=
+  feed_hist T C hU
+
+/-- **Restarts interrupted to any depth.** From any state a crash can leave, let the process die again after `j`
+units of each of the following restarts (`js`, any list) and let the last restart complete: it succeeds, the node
+is coherent (orphan pool empty) and its chain satisfies `P`. -/
+theorem restart_any_depth {U : Block → Prop} {g : Block} {P : List Block → Prop} {E : Store}
+    (h : RecState U g P E) (js : List Nat) :
+    ∃ N chain, restartChain E js = .ok N ∧ Coh U g N chain ∧ P chain ∧ N.orphans = [] :=
+  h.restartChain js
+
+/-- **One event of a history**: an arrival, completed or interrupted by a crash after any `k` of its units followed by
+any crashes inside the restarts, from any coherent node: the resulting node is coherent and its chain is the chain
+before the arrival, the chain `post` of the uninterrupted arrival, or one in between. -/
+theorem history_step {U : Block → Prop} {g : Block} (T : Tree U g) {N : Node} {chain : List Block}
+    (C : Coh U g N chain) (e : Ev) (hU : U e.block) :
+    ∃ N' chain' post, stepEv N e = .ok N' ∧ Coh U g N' chain' ∧ Coh U g (feed N e.block).1 post ∧
+      Legit chain post chain' :=
+  step_hist T C e hU
+
+/-- **Every history.** Start at the genesis node; let any sequence of events happen — blocks of the universe arriving in
+any order (forks, orphans, reorganisations back and forth), the process dying after any number of the durable
+write units of an arrival, dying again after any number of units of each restart: every restart succeeds and the
+node is coherent after every event (C05 clauses on the durable stores, state marker of the best block, no
+reorganisation marker, state DB at the best block's root). By induction over the event list from `history_step`. -/
+theorem history_coherent {U : Block → Prop} {g : Block} (T : Tree U g) (es : List Ev) (hU : ∀ e ∈ es, U e.block) :
+    ∃ N chain, runEvs ⟨genesisStore g, g, g.root, []⟩ es = .ok N ∧ Coh U g N chain :=
+  Crash.history_coherent T es _ [g] (coh_genesis T) hU
+
+/-- **Every prefix of the global sequence.** Feed any list `bs` of universe blocks to the genesis node, take the global
+sequence `journal` of durable write units of that crash-free run, cut it after any `k` units, restart — with any
+number of crashes inside the restarts: the node comes up coherent, and its chain is one the crash-free run
+reaches or is about to reach (`Reached`: before/after/between the `i`-th arrival for some `i`). -/
+theorem journal_prefix_recovers {U : Block → Prop} {g : Block} (T : Tree U g) (bs : List Block) (hU : ∀ b ∈ bs, U b)
+    (k : Nat) (js : List Nat) :
+    let N0 : Node := ⟨genesisStore g, g, g.root, []⟩
+    ∃ N chain, restartChain (crash (journal N0 bs) k (genesisStore g)) js = .ok N ∧ Coh U g N chain ∧
+      Reached U g N0 bs chain := by
+  intro N0
+  obtain ⟨h, _⟩ := journal_crashOK T bs N0 [g] (coh_genesis T) hU
+  obtain ⟨N, chain, h1, h2, h3, _⟩ := (h k).restartChain js
+  exact ⟨N, chain, h1, h2, h3⟩
+
+/-- **Fail-stop when the state DB lags.** For every store whatsoever that holds a reorganisation marker (no coherence
+assumed — in particular `crashLag`, a state DB that lost commits the chain DB's marker relies on): if the restart
+succeeds, the best block it ends at carries its state completion marker and the state DB is at its root. This is
+the statement that needs the `HasMarker` check of `executeBlockReco` (`recoRollforward`). -/
+theorem lagging_state_fail_stop {E : Store} {N : Node} {us1 us2 : List Crash.Unit}
+    (h : restart E = .ok (N, us1, us2)) (hm : getMarker E ≠ none) :
+    hasStMark N.D N.best.root = true ∧ N.sdbRoot = N.best.root :=
+  restart_state_complete h hm
+
+/-- **The model with failing executions extends the model the theorems are about.** -/
+theorem feedB_no_bad (N : Node) (b : Block) : feedB (fun _ => false) N b = feed N b := feedB_valid N b
+
+/-- **Crash inside a reorganisation that fails** (some block of the new branch does not execute): the node stays
+coherent on the old chain with the old best block, and every unit prefix of what the failed attempt wrote is a
+coherent store with that same chain. -/
+theorem failed_reorg_crash_recover {U : Block → Prop} {g : Block} {N N' : Node} {chain : List Block} {top : Block}
+    {us : List Crash.Unit} (bad : Nat → Bool) (C : Coh U g N chain) (h : reorgB bad N top = some (N', us, false)) :
+    Coh U g N' chain ∧ N'.best = N.best ∧ N'.D = applyUnits us N.D ∧
+      ∀ k, RecState U g (fun c => c = chain) (crash us k N.D) :=
+  reorgB_failed bad C h
+
+namespace Ex
+
+/-- The universe of the example blocks (two branches off the genesis that share transaction 10). -/
+def U (b : Block) : Prop := b = g ∨ b = a1 ∨ b = b1 ∨ b = b2
+
+/-- `Tree` holds for it (test on sample values): the shared transaction sits in `a1` and `b1`, which have the same
+number and therefore never lie on one parent-linked path. -/
+private theorem tree : Tree U g where
+  gU := Or.inl rfl
+  gno := rfl
+  gtx := rfl
+  uid := by
+    intro a b ha hb e
+    rcases ha with rfl | rfl | rfl | rfl <;> rcases hb with rfl | rfl | rfl | rfl <;> first | rfl | (exact absurd e (by decide))
+  par := by
+    intro b hb hg
+    rcases hb with rfl | rfl | rfl | rfl
+    · exact absurd rfl hg
+    · exact ⟨g, Or.inl rfl, rfl, rfl⟩
+    · exact ⟨g, Or.inl rfl, rfl, rfl⟩
+    · exact ⟨b1, Or.inr (Or.inr (Or.inl rfl)), rfl, rfl⟩
+  txu := by
+    intro l hasc hU b hb c hc i j t hi hj
+    have hab : ¬ (a1 ∈ l ∧ b1 ∈ l) := fun ⟨h1, h2⟩ => absurd (hasc.no_inj h1 h2 rfl) (by decide)
+    rcases hU b hb with rfl | rfl | rfl | rfl <;> rcases hU c hc with rfl | rfl | rfl | rfl <;>
+      first
+      | (exfalso; apply hab; constructor <;> assumption)
+      | (simp [g, a1, b1, b2] at hi hj ⊢; done)
+      | (simp [g, a1, b1, b2] at hi hj ⊢
+         rcases i with _ | _ | i <;> rcases j with _ | _ | j <;> first | omega | (simp_all <;> omega))
+
+/-- `history_coherent` applies to a concrete history (test on sample values): `a1` arrives, `b1` is stored as a side
+block, the arrival of `b2` (reorganisation `a1 → b2`) is cut after 7 units — inside the swap — and the first restart
+dies after 2 of its own units: the second restart brings the node up, and it is at `b2`. -/
+example : ∃ N chain, runEvs ⟨genesisStore g, g, g.root, []⟩ [.feed a1, .feed b1, .crash b2 7 [2]] = .ok N ∧
+    Coh U g N chain :=
+  history_coherent tree _ (by
+    intro e he
+    simp at he
+    rcases he with rfl | rfl | rfl
+    · exact Or.inr (Or.inl rfl)
+    · exact Or.inr (Or.inr (Or.inl rfl))
+    · exact Or.inr (Or.inr (Or.inr rfl)))
+
+example : (match runEvs ⟨genesisStore g, g, g.root, []⟩ [.feed a1, .feed b1, .crash b2 7 [2]] with
+           | .ok N => N.best.id
+           | .error _ => 0) = b2.id := by decide
+
+/-- A state DB that lags (test on sample values): the reorganisation `a1 → b2` is cut after the marker write (5 units),
+but the state DB lost everything from position 1 on (the roll-forward's commits): the restart refuses. -/
+example : (match restart (crashLag (reorgUnits g a1 b2 [a1] [b2, b1]) 5 1 D) with
+           | .ok _ => none
+           | .error e => some e) = some .noStateMarker := by decide
+
+/-- A reorganisation through a block that does not execute (`b1` bad) fails after zero units and leaves the node at
+`a1` (test on sample values). -/
+example : (feedB (fun i => i == b1.id) ⟨applyOps (sideUnit b1).ops (applyUnits (connectUnits a1) (genesisStore g)), a1, a1.root, []⟩ b2).2.1
+    = .err := by decide
+
+end Ex
+
 /-!
 ## Not carried by a theorem
 
-* `feed` is proved to issue the units the crash theorems quantify over for a block on the tip
-  (`connect_replay_converges`) and for the arrival that triggers a reorganisation (`feed_reorg`, with
-  `Fork.gather_eq`); for arrivals that first resolve parked orphans the composition is corresponded only.
+* Exact store equality after re-feeding (`connect_replay_converges`, `reorg_replay_converges_partial`) is proved per
+  operation; over histories (`history_coherent`, `journal_prefix_recovers`) the statement is coherence + "the chain is
+  one the crash-free run reaches", not equality of the final stores (false literally: witness 1).
+* The orphan pool has no capacity in the model (`orphanpool.go` evicts); invalid blocks (`feedB`) are covered for a
+  failing reorganisation (`failed_reorg_crash_recover`) and tied to `feed` (`feedB_no_bad`), not over histories.
 * Convergence after a crash *before* the marker write: false for "the same blocks" (witness 1); that one
   more block on the longer branch brings both runs to the same observable state is checked by the harness
   on the real code at every such crash point, not proved.
 * Partially flushed bulks (`crashTorn`): corresponded and explored by the harness (thorough tier), no theorem
   beyond witness 2.
-* Orphan-resolution chains: a run of `connect`s inside one arrival; each is covered by the linear theorems,
-  the composition (orphan pool is in memory and lost at the crash) is exercised by the harness.
 * Block execution is abstract (a block carries its resulting root; the state commit is one bulk ending with
   the completion marker); the real DPoS status record is replaced by the harness' stub consensus, whose
   status write sits in the same units (`+cons` in the tip transaction and in the mapping bulk).
